@@ -15,6 +15,7 @@ import numpy as np
 import c03_gen as G
 from renormalizer import Mps, Mpo
 from renormalizer.mps import MpDm
+from renormalizer.mps.lib import compressed_sum, _sum
 
 TOL = 1e-9
 
@@ -48,6 +49,7 @@ sys.path.insert(0, "/verif/harness/impl")
 import c03_gen as G
 from renormalizer import Mps, Mpo, Op
 from renormalizer.mps import MpDm
+from renormalizer.mps.lib import compressed_sum, _sum
 def relerr(x, ref): return float(np.linalg.norm(np.asarray(x) - np.asarray(ref)) / max(1.0, np.linalg.norm(ref)))
 def cplx(mp, seed):
     r = np.random.RandomState(seed); mp = mp.to_complex()
@@ -115,10 +117,11 @@ def after(mp, how):
     return mp
 
 
-def rand_hist(rng, n):
+def rand_hist(rng, n, end_centred=False):
+    """end_centred: only histories that leave (qnidx, to_right) at an end of the chain, as canonicalise() demands"""
     hist = []
     for _ in range(rng.choice([0, 1, 1, 2, 3])):
-        k = rng.choice(["L", "R", "LL", "C", "M", "M", "MT"])
+        k = rng.choice(["L", "R", "LL", "C"] if end_centred else ["L", "R", "LL", "C", "M", "M", "MT"])
         if k == "M":
             hist.append(["M", rng.randrange(n)])
         elif k == "MT":
@@ -156,7 +159,7 @@ def run_case(case_seed, maxsite, fails, stats):
     pool = []          # Obj
     charges = G.config_charges(sites)
 
-    def new_state(q, mode_desc):
+    def new_state(q, mode_desc, end_centred=False):
         mmax = rng.randint(2, 5) if nsite < 4 or ncomp == 1 else rng.randint(4, 6)
         name = fresh()
         s2 = rng.randrange(2 ** 31)
@@ -181,7 +184,7 @@ def run_case(case_seed, maxsite, fails, stats):
             lines.append("%s.coeff = %r" % (name, co))
         ref = G.dense_state(mp) * (co if co is not None else 1)
         lines.append("r_%s = dense(%s)" % (name, name))
-        hist = rand_hist(rng, nsite)
+        hist = rand_hist(rng, nsite, end_centred)
         if hist:
             gauge(mp, hist)
             lines.append("gauge(%s, %r)" % (name, hist))
@@ -265,11 +268,84 @@ def run_case(case_seed, maxsite, fails, stats):
     nops = rng.randint(1, 6)
     for step in range(nops):
         opk = rng.choice(["add", "add", "sub", "scale", "conj", "apply", "apply", "opop", "opadd", "conj_trans", "opscale",
-                          "dot", "norm", "distance", "distance", "opdot", "opdistance", "dm", "dmapply", "dmadd", "contract"])
+                          "dot", "norm", "distance", "distance", "opdot", "opdistance", "dm", "dmapply", "dmadd", "contract",
+                          "csum", "csum", "neardist", "neardist", "neardist"])
         stats.setdefault("ops", {})
         try:
             name = fresh()
-            if opk in ("add", "sub"):
+            if opk == "csum":
+                # sums of MANY operands through lib.compressed_sum / lib._sum (batched add + canonicalise + compress),
+                # non-truncating compress configuration: the result must be the dense sum
+                n = rng.choice([1, 2, 3, 4, 5, 6, 6, 7, 8, 9, 10, 11, 11, 12, 13, 16, 21, 26])
+                if nsite >= 5 and n > 13:
+                    n = 11
+                terms = []
+                for _ in range(n):
+                    o = new_state(q0, "", end_centred=True)
+                    if o is None:
+                        break
+                    G.lossless(o.mp)
+                    lines.append("G.lossless(%s)" % o.expr)
+                    o.refexpr = "r_" + o.expr
+                    terms.append(o)
+                if len(terms) != n:
+                    continue
+                bs = rng.choice([2, 3, 5, 5, 5, 6])
+                use_sum = n > 1 and rng.random() < 0.2
+                ref = sum(t.ref for t in terms)
+                if np.linalg.norm(ref) < 1e-6 * sum(np.linalg.norm(t.ref) for t in terms):
+                    continue
+                lst = "[" + ", ".join(t.expr for t in terms) + "]"
+                if use_sum:
+                    mp = _sum([t.mp for t in terms])
+                    lines.append("%s = _sum(%s); r_%s = %s" % (name, lst, name, " + ".join("r_" + t.expr for t in terms)))
+                else:
+                    mp = compressed_sum([t.mp for t in terms], batchsize=bs)
+                    lines.append("%s = compressed_sum(%s, batchsize=%d); r_%s = %s" % (name, lst, bs, name, " + ".join("r_" + t.expr for t in terms)))
+                o = Obj(mp, ref, "state", name); o.q = tuple(int(x) for x in q0); o.refexpr = "r_" + name
+                stats.setdefault("csum_n", {})
+                stats["csum_n"][str(n)] = stats["csum_n"].get(str(n), 0) + 1
+                if not check(o, "compressed_sum", ("", "L")):
+                    return
+                for t in terms[:3]:
+                    if not check(t, "compressed_sum-operand-unchanged", ("",)):
+                        return
+            elif opk == "neardist":
+                # nearly equal operands b = a + eps * c: the distance must be accurate relative to the TRUE distance as long
+                # as that is above the round-off floor of l1 + l2 - 2 Re l12 (about sqrt(1e-15) * |a| = 3e-8 |a|)
+                kind = rng.choice(["state", "state", "op", "dm"])
+                a = pick(kind)
+                if a is None:
+                    continue
+                c = pick(kind, a.q)
+                eps = rng.choice([1e-3, 1e-4, 1e-5, 3e-6, 1e-6, 1e-7])
+                if kind == "state" and rng.random() < 0.5:
+                    pass
+                bmp = a.mp.add(c.mp.scale(eps))
+                lines.append("%s = %s.add(%s.scale(%r))" % (name, a.expr, c.expr, eps))
+                hist = rand_hist(rng, nsite, end_centred=True)[:1]
+                hist = [h for h in hist if h[0] != "C" or kind == "state"]
+                if hist:
+                    gauge(bmp, hist)
+                    lines.append("gauge(%s, %r)" % (name, hist))
+                na, nc = float(np.linalg.norm(a.ref)), float(np.linalg.norm(c.ref))
+                dtrue = eps * nc
+                val = a.mp.distance(bmp) if rng.random() < 0.5 else bmp.distance(a.mp)
+                stats["checks"] = stats.get("checks", 0) + 1
+                stats.setdefault("neardist", {})
+                stats["neardist"]["%s eps=%g" % (kind, eps)] = stats["neardist"].get("%s eps=%g" % (kind, eps), 0) + 1
+                floor = 1e-6 * max(na, 1e-300)
+                if dtrue >= floor:
+                    okd = abs(val - dtrue) <= 1e-2 * dtrue
+                else:
+                    okd = val <= dtrue + floor          # below the floor only an upper bound is demanded
+                if not okd:
+                    report("distance:nearly-equal-operands", {"kind": kind, "eps": eps, "impl": repr(val), "true_distance": dtrue, "norm_a": na,
+                                                              "true_distance_over_norm": dtrue / max(na, 1e-300)},
+                           "val = %s.distance(%s); dtrue = %r * np.linalg.norm(r_%s)\nprint('impl', val, 'true distance', dtrue)\nsys.exit(1 if not abs(val - dtrue) <= 1e-2 * dtrue else 0)"
+                           % (a.expr, name, eps, c.expr))
+                    return
+            elif opk in ("add", "sub"):
                 a = pick("state")
                 if a is None:
                     continue
